@@ -361,7 +361,11 @@ def _real_key(R, kind, private, use, ops, oct_len=32, rsa_bits=2048):
     if kind == "oct":
         jwk = {"kty": "oct", "k": R.b64e(bytes((i * 3 + 1) % 256 for i in range(oct_len)))}
     elif kind == "RSA":
-        jwk = dict(R.test_key("RSA1024" if rsa_bits < 2048 else "RSA2048"))
+        try:
+            # a key of exactly the modulus size the model chose (sizes that are not a multiple of 8 included)
+            jwk = dict(R.test_key("RSA%d" % rsa_bits)) if 1024 <= rsa_bits <= 4096 else dict(R.test_key("RSA1024" if rsa_bits < 2048 else "RSA2048"))
+        except Exception:  # noqa
+            jwk = dict(R.test_key("RSA1024" if rsa_bits < 2048 else "RSA2048"))
     else:
         jwk = dict(R.test_key(kind))
     full = dict(jwk)
